@@ -38,6 +38,8 @@ MUTANTS = [
     ("C17", "HyperDual64.first_derivative swapped", "src/python/hyperdual.rs", "(self.0.eps1, self.0.eps2)", "(self.0.eps2, self.0.eps1)"),
     ("C17", "gradient of the dynamic branch reversed", "src/python/dual.rs", "try_gradient(g, DVector::from(x)).map(|(re, eps)| (re, eps.data.as_vec().clone()))", "try_gradient(g, DVector::from(x)).map(|(re, eps)| (re, eps.data.as_vec().iter().rev().cloned().collect()))"),
     ("C17", "repr uses Debug", "src/python_macro.rs", "Ok(self.0.to_string())", 'Ok(format!("{:?}", self.0))'),
+    # ---- C17: the repaired defect, brought back (multi-step: the second use of the operand sees the damage) ----
+    ("C17", "fix aee8088 reverted: x (op) object-array overwrites the operand", "@patch", "/verif/seeded/C17-regress/patch.diff", None),
     # ---- C17: callback faults ------------------------------------------------------------------------------
     ("C17", "second_derivative replaces the callable's exception", "src/python/dual2.rs", "        let res = f.call1((PyDual2_64::from(x),))?;", '        let res = f.call1((PyDual2_64::from(x),)).map_err(|_| PyErr::new::<PyTypeError, _>("callback failed".to_string()))?;'),
 ]
@@ -67,6 +69,17 @@ def main():
             continue
         full = f"{REPO}/{path}"
         try:
+            if path == "@patch":
+                if sh(["git", "-C", REPO, "apply", old]).returncode != 0:
+                    print(f"SKIP {prop} {name}: {old} does not apply")
+                    ok = False
+                    continue
+                r = sh(["/verif/check.sh", prop, "quick"])
+                line = next((l for l in r.stdout.splitlines() if l.startswith(("violation class", "conformance mismatch"))), "")
+                good = r.returncode == 1 and "VIOLATION property=" + prop in r.stdout
+                ok &= good
+                print(f"{'ok  ' if good else 'MISS'} {prop} {name}: exit {r.returncode}  {line[:150]}")
+                continue
             src = open(full, encoding="utf-8").read()
             if src.count(old) != 1:
                 print(f"SKIP {prop} {name}: anchor text occurs {src.count(old)} times in {path} (tree differs from the pinned one)")
